@@ -11,7 +11,7 @@ import (
 )
 
 func init() {
-	register("C19", "Decides the structural basis of @skip/@include: ShouldIncludeNode consults both directives before any including return and excludes on @skip(if:true); every consumer that walks raw selection sets for execution or planning (graphql.Flatten, federation flattenFragments and planObject) uses a selection or a fragment body only behind the success of ShouldIncludeNode on that same node's directives - in particular before same-alias selections are merged, because the merged selection carries no directives; any other function of graphql/federation that opens a fragment body (fragment.SelectionSet) without that test must be on the reasoned exempt list (validation, cycle detection, printing, post-flatten planning and (un)marshalling); parseSelectionSet only writes fields of Selection/Fragment objects it allocated itself (the shared fragment definition is never modified by a spread); parseIf rejects a missing or non-boolean `if` with an error. Not decided: equality with the textually pruned query for all placements; the truth of `if` values coming from variables.", c19)
+	register("C19", "Decides the structural basis of @skip/@include: ShouldIncludeNode consults both directives before any including return and excludes on @skip(if:true); every consumer that walks raw selection sets for execution or planning (graphql.Flatten, federation flattenFragments and planObject) uses a selection or a fragment body only behind the success of ShouldIncludeNode on that same node's directives - in particular before same-alias selections are merged, because the merged selection carries no directives; any other function of graphql/federation that opens a fragment body (fragment.SelectionSet) without that test must be on the reasoned exempt list (validation, cycle detection, printing, post-flatten planning and (un)marshalling); parseSelectionSet only writes fields of Selection/Fragment objects it allocated itself (the shared fragment definition is never modified by a spread); parseIf rejects a missing or non-boolean `if` with an error; a condition supplied through a variable wins over the variable's default (Parse installs a default only when no non-null value was supplied). Not decided: equality with the textually pruned query for all placements; the truth of `if` values coming from variables.", c19)
 }
 
 // rangeElems finds the element values of `for _, e := range X.<field>` loops
@@ -345,6 +345,9 @@ func c19(c *an.Ctx) {
 		ruleParseUsesDefaultedVars(c, o)
 	})
 
+	c.Check("R-GUARD", "a directive condition supplied through a variable wins over the variable's default: Parse installs a default only when no non-null value was supplied (an explicit false must not be replaced by a default of true) - rule shared with C18", 4, func(o *an.O) {
+		ruleParseDefaults(c, o, "guard")
+	})
 	c.Check("R-ERR", "parseIf rejects a missing or non-boolean `if` with an error", 3, func(o *an.O) {
 		ruleParseIf(c, o)
 	})
